@@ -75,7 +75,7 @@ func spoilsOf(line []byte, full bool, r rng) []spoil {
 		for _, fill := range []struct {
 			b    byte
 			name string
-		}{{' ', "blank"}, {'0', "zero"}, {0x01, "illegal-char"}, {'~', "tilde"}} {
+		}{{' ', "blank"}, {'0', "zero"}, {0x01, "illegal-char"}, {'~', "tilde"}, {0xE9, "eight-bit"}} {
 			s := cp()
 			for i := lo; i < hi; i++ {
 				s[i] = fill.b
@@ -134,6 +134,10 @@ func runC18(cfg *config) *Report {
 				ls := append([][]byte{}, lines...)
 				ls[k] = sp.line
 				cases = append(cases, kase{ls, k, sp, good, encCfg{}})
+				if sp.cls == "short" || sp.cls == "unknown-type" || r.Intn(5) == 0 {
+					// the same spoiled file in length-prefixed framing (a record cut to 0 bytes is a zero prefix)
+					cases = append(cases, kase{ls, k, sp, good, encCfg{LP: true}})
+				}
 			}
 		}
 	}
@@ -144,14 +148,26 @@ func runC18(cfg *config) *Report {
 		dump string
 	}
 	results := make([]res, len(cases))
+	frame := func(c kase) []byte {
+		if !c.enc.LP {
+			return joinLines(c.lines)
+		}
+		var b bytes.Buffer
+		for _, l := range c.lines {
+			n := len(l)
+			b.Write([]byte{byte(n >> 24), byte(n >> 16), byte(n >> 8), byte(n)})
+			b.Write(l)
+		}
+		return b.Bytes()
+	}
 	for i, c := range cases {
-		in := joinLines(c.lines)
+		in := frame(c)
 		f, rerr, p := realRead(in, c.enc, 1<<22)
 		if p != nil {
 			rep.violate(Violation{Key: "C18:reader-panic", What: fmt.Sprint("Reader panicked: ", p), Replay: map[string]any{"spoil": c.sp.desc, "position": c.k + 1, "bytes": hx(in)}})
 		}
 		results[i] = res{rerr, dumpFile(&f)}
-		ops = append(ops, fmt.Sprintf("read\t0\t0\t0\t%s\t%s", now, hx(in)))
+		ops = append(ops, fmt.Sprintf("read\t%s\t0\t0\t%s\t%s", b01(c.enc.LP), now, hx(in)))
 	}
 	got, err := leanParallel(cfg.driver, ops, runtime.NumCPU())
 	if err != nil {
@@ -168,6 +184,7 @@ func runC18(cfg *config) *Report {
 		rep.Evaluations++
 		rep.CorrOps++
 		rep.count("spoil:" + c.sp.cls)
+		rep.count("framing:" + c.enc.String())
 		rep.count("kind:" + string(c.lines[c.k][:min(2, len(c.lines[c.k]))]))
 		rep.nontrivial(fmt.Sprintf("%p/%d/%s", c.good, c.k, c.sp.desc))
 		rs := results[i]
@@ -175,7 +192,7 @@ func runC18(cfg *config) *Report {
 		if impl != got[i] {
 			rep.CorrDisagree++
 			rep.violate(Violation{Key: "C18:corr:read", What: "model reader and Reader.Read disagree on a file with one spoiled record",
-				Replay: map[string]any{"spoil": c.sp.desc, "position": c.k + 1, "bytes": hx(joinLines(c.lines)), "implementation": impl[:min(300, len(impl))], "model": got[i][:min(300, len(got[i]))]}, NoInput: true})
+				Replay: map[string]any{"spoil": c.sp.desc, "position": c.k + 1, "bytes": hx(frame(c)), "implementation": impl[:min(300, len(impl))], "model": got[i][:min(300, len(got[i]))]}, NoInput: true})
 		}
 		if i%3001 == 0 {
 			rep.sample(map[string]any{"position": c.k + 1, "of": len(c.lines), "spoil": c.sp.desc, "error": canonErr(rs.err)})
@@ -186,18 +203,18 @@ func runC18(cfg *config) *Report {
 		}
 		if rs.err == nil {
 			rep.violate(Violation{Key: "C18:accepted:" + kind + ":" + c.sp.cls, What: "a file with one invalid record was read without error (" + c.sp.desc + ")",
-				Replay: map[string]any{"spoil": c.sp.desc, "position": c.k + 1, "bytes": hx(joinLines(c.lines))}})
+				Replay: map[string]any{"spoil": c.sp.desc, "position": c.k + 1, "bytes": hx(frame(c))}})
 			continue
 		}
 		var pe *icl.ParseError
 		if !errors.As(rs.err, &pe) {
 			rep.violate(Violation{Key: "C18:no-position:" + kind + ":" + c.sp.cls, What: "read error carries no record position: " + rs.err.Error(),
-				Replay: map[string]any{"spoil": c.sp.desc, "position": c.k + 1, "bytes": hx(joinLines(c.lines)), "error": rs.err.Error()}})
+				Replay: map[string]any{"spoil": c.sp.desc, "position": c.k + 1, "bytes": hx(frame(c)), "error": rs.err.Error()}})
 			continue
 		}
 		if pe.Line != c.k+1 {
 			rep.violate(Violation{Key: fmt.Sprintf("C18:wrong-line:%s:%s", kind, c.sp.cls), What: fmt.Sprintf("error reports line %d, the offending record is at %d (%s)", pe.Line, c.k+1, c.sp.desc),
-				Replay: map[string]any{"spoil": c.sp.desc, "position": c.k + 1, "reported": pe.Line, "bytes": hx(joinLines(c.lines)), "error": rs.err.Error()}})
+				Replay: map[string]any{"spoil": c.sp.desc, "position": c.k + 1, "reported": pe.Line, "bytes": hx(frame(c)), "error": rs.err.Error()}})
 			continue
 		}
 		// partial file: every record token must come from the good file's records before position k
@@ -219,7 +236,7 @@ func runC18(cfg *config) *Report {
 			}
 			if !allowed[t] {
 				rep.violate(Violation{Key: "C18:partial-file-holds-later-data:" + kind + ":" + strings.SplitN(t, "|", 2)[0], What: "the partial file returned with the error holds values that were not decoded from a record before the offending one (" + c.sp.desc + ")",
-					Replay: map[string]any{"spoil": c.sp.desc, "position": c.k + 1, "bytes": hx(joinLines(c.lines)), "record_in_partial_file": t}})
+					Replay: map[string]any{"spoil": c.sp.desc, "position": c.k + 1, "bytes": hx(frame(c)), "record_in_partial_file": t}})
 				break
 			}
 		}
